@@ -6,6 +6,7 @@ import (
 	"slices"
 	"strings"
 	"unicode"
+	"unicode/utf8"
 
 	"golang.org/x/exp/constraints"
 )
@@ -19,7 +20,8 @@ func Exported(s string) string {
 			return initialism
 		}
 	}
-	return strings.ToUpper(s[0:1]) + s[1:]
+	first, size := utf8.DecodeRuneInString(s)
+	return string(unicode.ToUpper(first)) + s[size:]
 }
 
 func ReadFile(path string) (string, error) {
@@ -107,7 +109,7 @@ func Min[T cmp.Ordered](x ...T) T {
 // If the string is empty, false is returned. If the first character is a non-alphabetic
 // character, false is returned.
 func FirstIsLower(s string) bool {
-	first := rune(s[0])
+	first, _ := utf8.DecodeRuneInString(s)
 	if len(s) == 0 || !unicode.IsLetter(first) {
 		return false
 	}
